@@ -13,6 +13,8 @@
     wsNorm_deletes_only_ws noescape_agree_html_vocab strip_namespace_witness
     preserve_table_is_spec noescape_table_is_spec
     wsNorm_absorbs strip_only_whitespace_global_partial wsNorm_commutes_with_escape
+    cache_unobservable_markup_attrs ser_is_map_emit_markup_attrs markup_attr_key_collision_witness
+    markup_attrs_conservative
 -/
 import Genshi.Lemmas.Output
 import Genshi.Lemmas.OutputFlatten
@@ -20,6 +22,7 @@ import Genshi.Lemmas.OutputWs
 import Genshi.Lemmas.OutputWsDoctype
 import Genshi.Lemmas.OutputWsGlobal
 import Genshi.Lemmas.OutputSafeText
+import Genshi.Lemmas.OutputMarkupAttr
 import Genshi.Model.OutputPipeline
 namespace Genshi.Props.C09
 open Genshi Genshi.Output
@@ -114,6 +117,46 @@ theorem emit_context_only_text (m : Method) (o : Opts) (c c' : Ctx) (ev : FEv)
   | doctype n p s => simp_all [emit]
   | xmlDecl v e s => simp_all [emit]
   | _ => rfl
+
+/-! ### attribute values that are Markup instances (typed events, `Model/OutputMarkupAttr.lean`) -/
+
+/-- Cache on = cache off also when attribute values may be `Markup` instances: for every method,
+    option setting and stream of typed events (each START / EMPTY attribute value flagged Markup or
+    plain; `Markup('x') == 'x'` and equal hashes, so the cache key `TEv.key` forgets the flags).
+    The repaired loops never look up nor store a start tag holding a Markup value (`stepT`), which
+    keeps the cache invariant.  Before the repair (`stepOld`) the statement was false:
+    `markup_attr_key_collision_witness` (former finding C09-markup-attr). -/
+theorem cache_unobservable_markup_attrs (m : Method) (o : Opts) (evs : List TEv) :
+    loopT m o true {} evs = loopT m o false {} evs := by
+  rw [loopT_eq_spec m o true evs {} (cacheOk_nil m o), loopT_eq_spec m o false evs {} (cacheOk_nil m o)]
+
+/-- and what a typed event is written as depends only on the event and its markup context
+    (`emitT`: a start tag holding a Markup value is `startOutM` of its own typed attributes, anything
+    else is `emit` of its key), for both cache settings -/
+theorem ser_is_map_emit_markup_attrs (m : Method) (o : Opts) (useCache : Bool) (evs : List TEv) :
+    loopT m o useCache {} evs = serSpecT m o {} evs :=
+  loopT_eq_spec m o useCache evs {} (cacheOk_nil m o)
+
+/-- the typed layer extends the plain one conservatively: events without typed values go through
+    `loop` unchanged, and a start tag none of whose values is Markup is written as the plain tag -/
+theorem markup_attrs_conservative (m : Method) (o : Opts) (b : Bool) (evs : List FEv) (ie : Bool) (t : Str)
+    (a : MAttrs) (h : ∀ p ∈ a, p.2.2 = false) :
+    loopT m o b {} (evs.map TEv.ev) = loop m o b {} evs ∧ startOutM m ie t a = startOut m ie t (plainAttrs a) :=
+  ⟨loopT_ev m o b evs {}, startOutM_plain m ie t a h⟩
+
+def exTyped : List TEv :=
+  [.tag false ['a'] [(['t'], ['x', '&', 'y'], true)], .ev (.end_ ['a']),
+   .tag false ['a'] [(['t'], ['x', '&', 'y'], false)], .ev (.end_ ['a'])]
+
+/-- the loops before the repair on a Markup value followed by the equal plain string: the second
+    start tag is served the first one's rendering — cache on ≠ cache off (and the plain `&` goes out
+    unescaped) -/
+theorem markup_attr_key_collision_witness :
+    loopOld .xml {} true {} exTyped ≠ loopOld .xml {} false {} exTyped ∧
+    loopT .xml {} true {} exTyped = loopOld .xml {} false {} exTyped := by decide
+
+example : (loopT .xml {} true {} exTyped).flatten =
+    "<a t=\"x&y\"></a><a t=\"x&amp;y\"></a>".toList := by decide
 
 /-! ### the whole serializer (filters included), on the modelled (lite namespace) domain -/
 
